@@ -273,4 +273,10 @@ def check(ctx):
         common.check_derives(f, rep, 'C18-R0')
         check_graph(ctx, f, rep)
         r4_renewal_argument(ctx, f, rep)
+        # the gossip / announce rounds a datagram can set off (refutation, rejoin) send to at most `wanted` members: the
+        # targets are popped from a buffer that was empty before it was filled (C07-R7 re-run)
+        rep.rule('C18-R3', 'content-triggered rounds (gossip after a refutation or a rejoin) fan out to at most the configured '
+                           'number of members: their targets are chosen into the cleared scratch buffer or a fresh vector')
+        from . import c07 as _c07, c09 as _c09
+        _c07.r7_scratch(ctx, f, _c09._Rename(rep, 'C07-R7', 'C18-R3'))
     rep.cur_config = None
